@@ -255,14 +255,21 @@ CLAIMED = {
         text="Proved in Lean for connection targets of any nesting: import (slice.top inclusive -> Python stop, concatenation parts reversed) "
         "followed by export is the identity on well-formed targets (target_roundtrip); the table parts of the round trip — prefix maps, "
         "ideal-primitive name maps, pulse-source parameter renaming: importer = inverse of exporter on every entry — are decide-theorems "
-        "over tables regenerated from exporter and importer on every run. Everything else (ports, signals, instances, parameter values, "
-        "external modules with port order and spice type, literals, and that re-elaboration of imported modules changes nothing) is "
+        "over tables regenerated from exporter and importer on every run; for whole modules (module_roundtrip over the model of import_module / "
+        "import_ports_and_signals / import_instance and export_module / export_port / export_instance): a module of the shape the exporter writes "
+        "(distinct signal names, internal signals first and the ports after them in port-list order, directions of the enumeration, instances of "
+        "defined things connected on existing ports to well-formed targets) is imported without error and exports back to the identical module "
+        "— signals, ports and directions in order, instances with references, parameters and connection targets; the port-direction maps of "
+        "exporter and importer are regenerated by calling them on every enumeration member. That model is tied to from_proto by comparing, for "
+        "every module of generated / built-in / example packages, what the importer builds (signals and ports in dict order with directions, "
+        "connections) with the model's import, and by evaluating Shape on every exported module. Parameter values, external modules with port "
+        "order and spice type, literals, and that re-elaboration of imported modules changes nothing are "
         "decided by correspondence: to_proto(from_proto(P)) == P as protobuf equality for packages of generated designs (3 styles), the "
         "repository's examples (all top-level modules re-exported), built-in generators and the primitive / external-module parameter space.",
-        note="Only the connection-target and table clauses are proved; the module-level import/export mirror is covered by protobuf equality on "
-        "every explored package.",
+        note="Parameter values and instance targets are carried through the module-level model unchanged (their value-level round trip is the "
+        "table theorems plus protobuf equality on every explored package); external-module declarations and literals are correspondence-only.",
         ref="DESIGN.md §6 C11",
-        technique="Lean 4 proof (target round trip by mutual structural induction, decide over regenerated tables) + protobuf-equality correspondence",
+        technique="Lean 4 proof (target and module round trip by structural induction, decide over regenerated tables) + protobuf-equality and import-model correspondence",
     ),
     "C05": dict(
         text="Proved in Lean for every namespace, base name and length limit: the name flatname returns is not in the namespace it was told "
